@@ -235,6 +235,14 @@ def run(cfg, w):
             for i, d in enumerate(A):
                 w.ob(f"index[{i}]", sa.index(d.name) == i and sa.index(d.letter) == i)
                 w.ob(f"size[{i}]", sa.size(d.name) == len(d.items) and sa.size(d.letter) == len(d.items))
+            from flodym import Dimension
+
+            for i, d in enumerate(A):
+                w.ob(f"item_positions[{i}]", [d.index(it) for it in d.items] == list(range(len(d.items))) and d.len == len(d.items))
+                part = Dimension(name=d.name + "Part", letter="z", items=list(d.items[::-1][:max(1, len(d.items) - 1)]))
+                strict = len(part.items) < len(d.items)
+                w.ob(f"item_subset_superset[{i}]", part.is_subset(d) and d.is_superset(part) and d.is_subset(d) and d.is_superset(d)
+                     and (part.is_superset(d) == (not strict)) and (d.is_subset(part) == (not strict)))
             check_list(w, "set", sa, A)
             w.ob("string", sa.string == "".join(d.letter for d in A))
             return
